@@ -279,6 +279,9 @@ class Engine:
             return a.t == b.t
         if isinstance(a, VBool) and isinstance(b, VBool):
             return a.t == b.t
+        if isinstance(a, VRef) != isinstance(b, VRef) and isinstance(a, (VRef, VStr, VInt)) and isinstance(b, (VRef, VStr, VInt)):
+            # an item/section (dict or list subclass) never equals a str/int
+            return z3.BoolVal(False)
         if isinstance(a, VRef) and isinstance(b, VRef):
             # HeaderItem is an OrderedDict with no keys: == between two items is
             # dict equality (always True); we only model identity comparisons.
@@ -645,9 +648,21 @@ class Engine:
                 return [(st, VBound(v, attr))]
             if info.get("getattr"):
                 return s.call_method(v, "__getattr__", [VStr(attr)], {}, st, out, node)
+            if info.get("closed", True):
+                s.raise_(st, "AttributeError", out, node)
+                return []
             raise OutOfSubset("attribute %s of %s" % (attr, v.cls))
         if isinstance(v, VExt):
             return [(st, VExt(v.name + "." + attr))]
+        if isinstance(v, (VInt, VBool, VNone)):
+            probe = {VInt: 0, VBool: True, VNone: None}[type(v)]
+            if not hasattr(probe, attr):
+                s.raise_(st, "AttributeError", out, node)
+                return []
+            raise OutOfSubset("attribute %s of %r" % (attr, v))
+        if isinstance(v, VStr) and not hasattr("", attr):
+            s.raise_(st, "AttributeError", out, node)
+            return []
         if isinstance(v, (VStr, VFile, VCList, VList, VDict, VObj, VConst, VTuple)):
             return [(st, VBound(v, attr))]
         raise OutOfSubset("attribute %s of %r" % (attr, v))
